@@ -157,11 +157,29 @@ def compound_order_case(case):
     return dict(reproduced=bool(violated), violated=violated)
 
 
+def compound_slow_first_case(case):
+    """a slow (Python-validated) alternative declared before a fast one, both accepting the value"""
+    from traits.api import HasTraits, Either, CList, CStr, TraitError
+    violated = []
+
+    class A(HasTraits):
+        x = Either(CList, CStr)
+
+    class B(HasTraits):
+        y = CList
+    a, b = A(), B()
+    a.x = "ab"
+    b.y = "ab"
+    if a.x != b.y:
+        violated.append("Either(CList, CStr) <- 'ab' stores %r; the first accepting alternative (CList) alone stores %r" % (a.x, b.y))
+    return dict(reproduced=bool(violated), violated=violated)
+
+
 def main():
     case = json.loads(sys.stdin.read())
     out = {"float_range": float_range_case, "ctrait_state": ctrait_state_case,
            "setattr_name_refcount": setattr_name_refcount_case,
-           "compound_order": compound_order_case}[case["family"]](case)
+           "compound_order": compound_order_case, "compound_slow_first": compound_slow_first_case}[case["family"]](case)
     print(json.dumps(out, default=repr))
 
 
